@@ -74,6 +74,16 @@ CHECKS.update({
    text='For symbolic real matrices of size 1..3 (quick) / 1..4 (thorough) and tall 3x2 (4x2, 4x3) systems with least squares, on EVERY pivot path the returned x satisfies A x = b (normal equations for least squares) as an exact algebraic identity given non-zero pivots; a non-singular matrix never leads to a zero pivot (n<=3); Dual/Dual2 entries (2x2, shared variable list) satisfy A x = b in every first and second derivative, also with float A and dual b; a row-swapped system gives the same x.',
    note='Exact arithmetic (rounding/conditioning outside). Dual entries share one variable list (layouts are C03). n<=4.'),
 })
+CHECKS.update({
+ 'C09': dict(engine='mirsym', technique='symbolic execution of the MIR of FXRates::try_new / create_fx_array / mut_arrays_remaining_elements (recursive) with symbolic positive rates on every canonical quote-list structure; exact fraction arithmetic; z3 validity query per structure against the tree path-product oracle; native replay',
+   category='model_checking', design_ref='DESIGN.md §3.9',
+   text='For EVERY quote-list structure with 1..3 (quick) / 1..4 (thorough) quotes - every choice of quoted pairs, orientation, quote order and base, canonical up to renaming currencies - and symbolic positive rates: a spanning tree with consistent settlement is accepted and all n*n rates equal the product of quotes (inverted where travelled backwards) along the unique path, the diagonal is 1, quoted pairs are returned structurally unchanged, currencies are ordered base-first; every other structure (under/over-specified, cyclic, repeated or inverse pair, base outside the quotes, inconsistent settlement) ends in Err - never Ok, never an abort or non-termination.',
+   note='Structures are enumerated (finite discrete space); the solver quantifies over rates. <=4 quotes (5 currencies); exact arithmetic.'),
+ 'C10': dict(engine='mirsym', technique='same encoding as C09 run through operation histories (set_ad_order, update, rejected update) with symbolic old/new rates; after every step the whole matrix is compared by z3 with the closed form of the latest quotes incl. first/second sensitivities by variable name; native replay',
+   category='model_checking', design_ref='DESIGN.md §3.10',
+   text='For every spanning-tree structure with 1..2 (quick) / 1..3 (thorough) quotes and every operation sequence of length <=2 (<=3): after construction and after each step every cross rate equals the path product of the LATEST quotes, its sensitivity to quote k is reported under fx_<pair> (a dual-valued quote keeps its own variable) and equals +-cross/q_k on the path and 0 off it, second order s_i s_j cross/(q_i q_j) resp. s_i(s_i-1)cross/q_i^2, switching order never changes a value, updates naming an unknown pair are refused and leave the state unchanged.',
+   note='Each step is compared with the closed form of the latest quotes (the inductive invariant), so longer histories follow step by step; explicit histories are bounded.'),
+})
 NA_REASON = 'no registered check in this revision yet (work in progress; planned solver-based check described in DESIGN.md §3) — not claimed'
 
 checks = []
@@ -102,7 +112,7 @@ m = {
            'add_only': True},
  'engines': [
    {'name': 'kani', 'path': '/verif/kani', 'serves_properties': ['C08', 'C11', 'C20', 'C04'], 'kind_free_text': 'Kani 0.68 / CBMC 6.11 proof harnesses over the compiled crate (path dependency on /repo), native replay binary in the same crate'},
-   {'name': 'mirsym', 'path': '/verif/mirsym', 'serves_properties': ['C01','C02','C03','C04','C05','C06','C13','C17','C18','C19','C20'], 'kind_free_text': 'symbolic executor for rustc MIR (regenerated from /repo on every run) discharging path obligations with z3'},
+   {'name': 'mirsym', 'path': '/verif/mirsym', 'serves_properties': ['C01','C02','C03','C04','C05','C06','C09','C10','C13','C17','C18','C19','C20'], 'kind_free_text': 'symbolic executor for rustc MIR (regenerated from /repo on every run) discharging path obligations with z3'},
    {'name': 'tables', 'path': '/verif/tables', 'serves_properties': ['C07'], 'kind_free_text': 'SMT encoding of the static holiday tables against the published rules over a symbolic day'},
  ],
  'checks': checks,
